@@ -38,8 +38,15 @@ pub fn install_panic_hook() {
             .location()
             .map(|l| format!("{}:{}", l.file(), l.line()))
             .unwrap_or_default();
+        if loc.starts_with("src/") || loc.contains("/verif/sim/src") {
+            eprintln!("harness panic at {}: {}", loc, msg);
+        }
         LAST_PANIC.with(|p| *p.borrow_mut() = Some((msg, loc)));
     }));
+}
+
+pub fn take_panic_pub() -> (String, String) {
+    take_panic()
 }
 
 fn take_panic() -> (String, String) {
